@@ -281,6 +281,27 @@ func TestC13(t *testing.T) {
 			}
 		}
 	}
+	// wide and deep members of the type-system grammar, three configurations each
+	for _, kind := range gen.WideSchemaKinds {
+		for _, n := range kit.PickInts([]int{1, 17, 129, 501, 1025}, gen.WideSizes) {
+			if strings.HasPrefix(kind, "d-") && n > 600 {
+				continue
+			}
+			text := gen.WideSchema(kind, n)
+			for _, cfg := range []fmtConfig{{DefaultInd: true}, {Indent: "", Comments: true, Compacted: true}, {Indent: " \t", Comments: true, NoDesc: true}} {
+				c := c13DocCase{Input: text, Config: cfg}
+				r.Begin("doc", func() interface{} { return c })
+				v := c13DocEval(c)
+				r.End()
+				r.Case(true, fmt.Sprintf("wide:%s:%d:%v", kind, n, cfg))
+				r.Class("wide:" + kind)
+				if v != "" {
+					r.Violation("doc", c, "%s", cut(v, 0, 600))
+					break
+				}
+			}
+		}
+	}
 	if r.Violations() > 0 {
 		return
 	}
